@@ -399,4 +399,52 @@ theorem ack_assemble (m : BufMap) (a b : Nat) (hab : a < b) (hb : b ≤ m.size)
     · have h1 : ¬ (a ≤ x ∧ x < b) := by omega
       simp [BufMap.abs, hxs, setRange, h1]
 
+/-! ### `ack_rcvd` -/
+
+/-- `ack_rcvd` after the `match pos` -/
+private def ackRest (m : BufMap) (a b : Nat) (runs1 : List Run) (ds : Nat) (nis : Bool) (de0 : Nat)
+    (pre0 : Colour) : Res BufMap := do
+  let (de, pre, nie) ← ackScan b m.size runs1 (runs1.drop de0) de0 pre0
+  let runs2 ← splice runs1 ds de (if nis then some (a, .recved) else none) (if nie then some (b, pre) else none)
+  pure { m with runs := runs2 }
+
+private theorem ack_rest (m : BufMap) (a b : Nat) (runs1 X M T A B : List Run) (pre0 : Colour) (nis : Bool)
+    (hr : runs1 = X ++ (M ++ T)) (hAB : X ++ M = A ++ B)
+    (hM : ∀ r ∈ M, r.1 < b ∧ r.2 ≠ .pending) (hT : ∀ r, T.head? = some r → b ≤ r.1) (hb : b ≤ m.size)
+    (hTs : Sorted T) (hTlt : ∀ r ∈ T, r.1 < m.size) :
+    ∃ Z, ackRest m a b runs1 A.length nis X.length pre0
+        = .ok { m with runs := (A ++ (if nis then some (a, Colour.recved) else none).toList) ++ Z } ∧
+      Sorted Z ∧ (∀ r ∈ Z, b ≤ r.1 ∧ r.1 < m.size) ∧
+      ∀ x, b ≤ x → x < m.size → colourAt Z .recved x = colourAt T (lastCol M pre0) x := by
+  obtain ⟨T1, T2, nie, hT12, hscan, hZ1, hZ2, hZ3⟩ := ack_tail b m.size runs1 X M T pre0 hr hM hT hb hTs hTlt
+  refine ⟨_, ?_, hZ1, hZ2, hZ3⟩
+  have hdrop : runs1.drop X.length = M ++ T := by subst hr; exact List.drop_left' rfl
+  have hlen : X.length + M.length = A.length + B.length := by
+    have := congrArg List.length hAB; simpa using this
+  have hr' : runs1 = A ++ (B ++ T1) ++ T2 := by
+    rw [hr, hT12, ← List.append_assoc, ← List.append_assoc, hAB]; simp
+  simp only [ackRest, hdrop, hscan, bind, Except.bind]
+  rw [hr', splice_decomp A (B ++ T1) T2 A.length _ _ _ rfl (by simp; omega)]
+  simp [pure, Except.pure]
+
+private theorem ackRcvd_found (m : BufMap) (a b idx o : Nat) (c : Colour)
+    (h1 : bsearch m.runs a = (true, idx)) (h2 : m.runs[idx]? = some (o, c)) (h3 : c ≠ .pending) :
+    ackRcvd m a b = ackRest m a b (m.runs.set idx (o, .recved))
+      (sameBefore (m.runs.set idx (o, .recved)) .recved idx + 1) false (idx + 1) c := by
+  unfold ackRcvd ackRest
+  simp only [h1, h2, h3, if_false]
+  rfl
+
+private theorem ackRcvd_notfound (m : BufMap) (a b idx : Nat) (c : Colour)
+    (h1 : bsearch m.runs a = (false, idx))
+    (h2 : (idx = 0 ∧ c = .recved) ∨ (idx ≠ 0 ∧ ∃ o, m.runs[idx - 1]? = some (o, c))) (h3 : c ≠ .pending) :
+    ackRcvd m a b = ackRest m a b m.runs idx (c != .recved) idx c := by
+  unfold ackRcvd ackRest
+  rcases h2 with ⟨h0, hc⟩ | ⟨h0, o, h2⟩
+  · subst h0; subst hc
+    simp only [h1, if_true]
+    rfl
+  · simp only [h1, h0, h2, h3, if_false]
+    rfl
+
 end GmQuic.BufMap
